@@ -122,6 +122,8 @@ def experiment(g, rule, flags=(), lose=None, seed=0, restore=False):
         r2, out = rec.sync(*flags); desc.append("resume sync -> %s" % out["exit"])
         resumed = out["exit"] == "ok"          # a refused resume (e.g. parity already cut, files put back) is judged by C14
         r3, out = rec.check(); desc.append("check -> %s" % out["exit"])
+        if resumed:
+            rec.lines[-1]["args"]["expect_clean"] = True      # "running sync again completes and re-establishes the full guarantee"
         if lose is not None:
             kind, i = lose
             if kind == "d":
@@ -205,8 +207,15 @@ def fix_sigint_experiment(g, seed=0):
                 c.remove(d, n)
             rec.env("lose " + " ".join("%d/%s" % x for x in lost), damage=True); desc.append("lose " + " ".join("%d/%s" % x for x in lost))
             if variant == "interrupted":
-                k = rng.randint(1, 3)
-                r = rec.fix_killed(["pwrite,/d,%d,sigint" % k]); desc.append("fix stopped by SIGINT after data write %d rc=%s" % (k, r.rc))
+                # the signal arrives while fix reads an intact file that follows a re-created one on the same disk (or, every
+                # other time, after one of its first writes)
+                d0, n0 = lost[0]
+                later = sorted(n for n in st["cf"][str(d0)] if n in st["fs"][str(d0)] and n != n0 and st["cf"][str(d0)][n]["bl"])
+                if later and seed % 2 == 0:
+                    rule = "pread,%s,1,sigint" % os.path.join(os.path.basename(c.ddir(d0)), later[0])
+                else:
+                    rule = "pwrite,%s/,%d,sigint" % (os.path.basename(c.ddir(d0)), rng.randint(1, 3))
+                r = rec.fix_killed([rule]); desc.append("fix stopped by SIGINT (%s) rc=%s" % (rule, r.rc))
             r, out = rec.fix(); desc.append("fix -> %s" % out["exit"])
             final = {d: {n: (tuple(f["b"]), f["sz"]) for n, f in rec.lines[-1]["state"]["fs"][d].items()} for d in rec.D}
             r, out = rec.check(); desc.append("check -> %s" % out["exit"])
